@@ -45,6 +45,7 @@ type Group struct {
 	LockGuard   *symx.LockGuard                `json:"lock_guard"`
 	RaceFn      string                         `json:"race_fn"`
 	Summarize   []string                       `json:"summarize"`
+	CheckPrefix []string                       `json:"check_prefix"`
 }
 
 type Spec struct {
@@ -175,6 +176,7 @@ type candidate struct {
 	pkg     string
 	okCase  bool // co-simulation witness: expected result "ok"
 	raceFn  string
+	prefix  []string
 }
 
 func main() {
@@ -297,6 +299,7 @@ func main() {
 			cfg.AllocFactor, cfg.AllocBase = g.AllocFactor, g.AllocBase
 			cfg.LossyFmt = g.LossyFmt
 			cfg.LockGuard = g.LockGuard
+			cfg.CheckPrefix = g.CheckPrefix
 			cfg.Summarize = map[string]bool{}
 			for _, f := range g.Summarize {
 				cfg.Summarize[f] = true
@@ -416,11 +419,11 @@ func main() {
 			for _, v := range o.Violations {
 				vv := v
 				vv.Key = key
-				cands = append(cands, candidate{v: vv, harness: h, pkg: in.g.Pkg, raceFn: in.g.RaceFn})
+				cands = append(cands, candidate{v: vv, harness: h, pkg: in.g.Pkg, raceFn: in.g.RaceFn, prefix: in.g.CheckPrefix})
 			}
 		}
 		if rep.Witness != nil && !in.g.NoCosim {
-			okCases = append(okCases, candidate{v: symx.Violation{Key: h + "/witness", Inputs: rep.Witness, Params: in.params}, harness: h, pkg: in.g.Pkg, okCase: true})
+			okCases = append(okCases, candidate{v: symx.Violation{Key: h + "/witness", Inputs: rep.Witness, Params: in.params}, harness: h, pkg: in.g.Pkg, okCase: true, prefix: in.g.CheckPrefix})
 		}
 	}
 	// covers declared in the spec must be hit by some instance
@@ -597,7 +600,7 @@ func main() {
 		k := c.v.Key
 		path := filepath.Join(replayDir, sanitize(ck)+".json")
 		rec := map[string]any{"property": prop, "obligation": k, "package": module + "/" + c.pkg, "pkg_rel": c.pkg, "harness": c.harness,
-			"harness_dirs": spec.HarnessDirs, "params": c.v.Params, "inputs": c.v.Inputs, "kind": c.v.Kind, "race_fn": c.raceFn, "observed": c.v.Msg, "where": c.v.Where, "replayed": !*noReplay}
+			"harness_dirs": spec.HarnessDirs, "params": c.v.Params, "inputs": c.v.Inputs, "kind": c.v.Kind, "race_fn": c.raceFn, "check_prefix": c.prefix, "observed": c.v.Msg, "where": c.v.Where, "replayed": !*noReplay}
 		jb, _ := json.MarshalIndent(rec, "", " ")
 		os.WriteFile(path, jb, 0o644)
 		if kf := matchKnown(known, k, c.v.Params); kf != nil {
@@ -887,6 +890,7 @@ func nativeReplay(pkgRel string, harnessDirs []string, cs []candidate) ([]replay
 		Harness string            `json:"harness"`
 		Inputs  map[string]string `json:"inputs"`
 		Params  map[string]int    `json:"params"`
+		Prefix  []string          `json:"prefix"`
 	}
 	outs := make([]replayOut, len(cs))
 	for i := range outs {
@@ -896,7 +900,7 @@ func nativeReplay(pkgRel string, harnessDirs []string, cs []candidate) ([]replay
 	for start < len(cs) {
 		var cases []vCase
 		for _, c := range cs[start:] {
-			cases = append(cases, vCase{c.harness, c.v.Inputs, c.v.Params})
+			cases = append(cases, vCase{c.harness, c.v.Inputs, c.v.Params, c.prefix})
 		}
 		cb, _ := json.Marshal(cases)
 		cp := filepath.Join(tmp, "cases.json")
@@ -1013,6 +1017,7 @@ func replayOne(path string) int {
 		Inputs      map[string]string `json:"inputs"`
 		Kind        string            `json:"kind"`
 		RaceFn      string            `json:"race_fn"`
+		Prefix      []string          `json:"check_prefix"`
 	}
 	if err := json.Unmarshal(b, &rec); err != nil {
 		fmt.Fprintln(os.Stderr, err)
@@ -1028,7 +1033,7 @@ func replayOne(path string) int {
 		fmt.Println("does not reproduce on the current tree")
 		return 0
 	}
-	c := candidate{v: symx.Violation{Key: rec.Obligation, Kind: rec.Kind, Inputs: rec.Inputs, Params: rec.Params}, harness: rec.Harness, pkg: rec.PkgRel}
+	c := candidate{v: symx.Violation{Key: rec.Obligation, Kind: rec.Kind, Inputs: rec.Inputs, Params: rec.Params}, harness: rec.Harness, pkg: rec.PkgRel, prefix: rec.Prefix}
 	outs, err := nativeReplay(rec.PkgRel, rec.HarnessDirs, []candidate{c})
 	if err != nil {
 		fmt.Fprintln(os.Stderr, "replay failed:", err)
